@@ -282,6 +282,8 @@ type CompareOpts struct {
 	// BelowWindow: also compare parameter lookups for every height from 0 (depends on the
 	// exact pruning rule R10).  Only use on a store without uncommitted deletions.
 	BelowWindow bool
+	// OnlyImplies: compare nothing but ImpliesMaximalPrevotes for Header.
+	OnlyImplies bool
 }
 
 // Compare reads everything observable from the implementation's store and compares it with
@@ -289,6 +291,10 @@ type CompareOpts struct {
 func Compare(api *liskbft.API, store *diffdb.Database, m *lip58.Model, o CompareOpts) []Mismatch {
 	var out []Mismatch
 	add := func(k, d string) { out = append(out, Mismatch{k, d}) }
+	if o.OnlyImplies {
+		compareImplies(api, store, m, o, add)
+		return out
+	}
 
 	pv, pc, ce, err := api.GetBFTHeights(store)
 	if err != nil {
@@ -352,9 +358,36 @@ func Compare(api *liskbft.API, store *diffdb.Database, m *lip58.Model, o Compare
 	}
 	from := lo
 	if o.BelowWindow {
-		from = 0
+		// start two heights below the lowest key stored on either side (not at 0: the
+		// genesis height may be huge); height 0 itself is always probed as well
+		if ks := m.ParamHeights(); len(ks) > 0 && ks[0] < from {
+			from = ks[0]
+		}
+		if ks := m.GeneratorKeyHeights(); len(ks) > 0 && ks[0] < from {
+			from = ks[0]
+		}
+		if ips, err := liskbft.VerifDumpParams(store); err == nil && len(ips) > 0 && ips[0].Height < from {
+			from = ips[0].Height
+		}
+		for _, g := range liskbft.VerifDumpGeneratorKeyHeights(store) {
+			if g < from {
+				from = g
+			}
+		}
+		if from >= 2 {
+			from -= 2
+		} else {
+			from = 0
+		}
 	}
-	for h := from; h <= tip+2; h++ {
+	heights := []uint32{}
+	if from > 0 && o.BelowWindow {
+		heights = append(heights, 0)
+	}
+	for h := from; h <= tip+2 && h >= from; h++ {
+		heights = append(heights, h)
+	}
+	for _, h := range heights {
 		ip, ierr := api.GetBFTParameters(store, h)
 		rp, rerr := m.ParamsAt(h)
 		scope := "in-window"
@@ -429,6 +462,11 @@ func Compare(api *liskbft.API, store *diffdb.Database, m *lip58.Model, o Compare
 			add("stored-generator-key-heights", fmt.Sprintf("impl=%v ref=%v", gh, rh))
 		}
 	}
+	compareImplies(api, store, m, o, add)
+	return out
+}
+
+func compareImplies(api *liskbft.API, store *diffdb.Database, m *lip58.Model, o CompareOpts, add func(k, d string)) {
 	if o.Header != nil {
 		iv, ierr := api.ImpliesMaximalPrevotes(store, o.Header.Readonly())
 		rv, rerr := m.ImpliesMaximalPrevotes(o.RefHeader)
@@ -440,5 +478,4 @@ func Compare(api *liskbft.API, store *diffdb.Database, m *lip58.Model, o Compare
 			add(fmt.Sprintf("ImpliesMaximalPrevotes:impl=%v:ref=%v", iv, rv), fmt.Sprintf("height %d mhg %d", o.RefHeader.Height, o.RefHeader.MaxHeightGenerated))
 		}
 	}
-	return out
 }
